@@ -9,7 +9,8 @@ CFG = dict(
          "process per chunk, a crash becomes the output PANIC) on a running real source (real Start + CoreLoop, scripted VerifLoopSource): `hist` = 1-8 requests "
          "with fuzzed arguments (ConfigureTriggers, ConfigurePulseLengths, ConfigureProjectorsBasis incl. malformed base64/matrix bytes, WriteControl with 10 "
          "request strings x 3 path kinds x file-type flags, SetExperimentStateLabel(wait), WriteComment, FB/err coupling, group-trigger coupling, "
-         "StopTriggerCoupling, StoreRawDataBlock; ~30% negative / out-of-range / huge indices and sizes) interleaved with blocks, Stop, self-termination "
+         "StopTriggerCoupling, StoreRawDataBlock; ~30% negative / out-of-range / huge indices and sizes) interleaved with blocks, Stop, self-termination; 30% of the histories begin with accepted projectors on a channel, a pulse-length "
+         "change (record length only / presamples only / both / same) and triggered records on that channel "
          "(error block, stale active flag) and flag refresh; `pair` = 2-6 rounds of TWO requests in flight at once from two goroutines, one that must fail and one that must succeed "
          "(fixed requests whose reply does not depend on the other), gated so that the first caller is parked between handing over its request and receiving its "
          "result while the second is let through first whenever it gets that far; each caller's reply must be the model's reply to ITS request; "
